@@ -228,8 +228,8 @@ EXTRA = {
     "list-valued fields.",
     "C10": " One selector object meets histories of 3 (4) records over 7 kinds (layouts sharing a type name, grouped records of different composition, a nested holder) x 15 programs: "
     "every verdict equals that of a fresh selector; the real SqliteReader.read_table pagination runs under the uninterpreted selector for every reader batch size.",
-    "C11": " RecordStreamReader.readheader's accept decision (SMT from its AST): accepted implies the magic at offset 6 of the header frame; two writers open at the same time over "
-    "every codec pair and every schedule of 4 interleaved writes read back as their own records (real codecs, schedule symbolic).",
+    "C11": " open_path's choice of opener is additionally decided by SMT for ALL path strings (translated from its AST with the environment calls as opaque stand-ins). RecordStreamReader.readheader's accept decision (SMT from its AST): accepted implies the magic at offset 6 of the header frame; two writers open at the same time over "
+    "every codec pair and every schedule of 4 interleaved writes, and two readers open at the same time over every codec pair, naming and schedule, read back their own records (real codecs, schedule symbolic).",
     "C12": " The ignored-fields configuration is also applied to grouped and nested records (symbolic ignore bits).",
     "C15": " One RecordFieldRewriter serves two layouts of one type name in both arrival orders; GroupedRecord._replace is replayed at member level.",
     "C16": " A real --split battery (more parts than the suffix length can number) is a further concrete side condition.",
